@@ -10,10 +10,10 @@ def taskSt (s : InitSt α) (key : Key) (stack deps : List Key) : InitSt α :=
   { stack := stack, seen := key :: s.seen, readySet := if waitOf s deps = [] then sadd key s.readySet else s.readySet, dependencies := touch s.dependencies key, dependents := touch s.dependents key, waiting := if waitOf s deps = [] then s.waiting else s.waiting.set key (waitOf s deps), waitingData := touch s.waitingData key, cache := s.cache }
 
 theorem initVisit_task (g : Graph) (P : Params α) (s : InitSt α) (key : Key) (stack deps : List Key)
-    (hg : g.get? key = some (.task deps)) :
+    (hg : g.get? key = some (.task deps)) (hnc : s.cache.has key = false) :
     initVisit g P key { s with stack := stack } = .ok (taskDepsLoop key deps (taskSt s key stack deps)) := by
   unfold initVisit
-  simp only [hg]
+  simp only [hg, hnc, Bool.false_eq_true, if_false]
   unfold taskSt waitOf
   by_cases hw : List.filter (fun d => !s.cache.has d) deps = []
   · simp only [hw, if_true]
@@ -24,7 +24,7 @@ theorem IInv.visit_task {g : Graph} {results : List Key} {P : Params α} {s : In
     (hst : s.stack = key :: stack) (hns : key ∉ s.seen) (hg : g.get? key = some (.task deps)) :
     ∃ s', initVisit g P key { s with stack := stack } = .ok s' ∧ IInv g results P s' ∧
       measure g s' < measure g s := by
-  rw [initVisit_task g P s key stack deps hg]
+  rw [initVisit_task g P s key stack deps hg (h.not_cached_of_not_seen hns)]
   refine ⟨_, rfl, ?_, ?_⟩
   all_goals
     have hkt : isTask g key := ⟨deps, hg⟩
